@@ -1,6 +1,6 @@
 (* The state invariant of the core model and its preservation by every
-   operation (no well-formedness needed: the invariant holds after ANY
-   history of the model). *)
+   operation except another table's AddRow taking a row of this table (the
+   one thing wf_hist excludes that the model expresses). *)
 From Tab Require Import Base.Ops Model.Core Spec.History.
 
 Section Inv.
@@ -22,6 +22,7 @@ Record Inv (hs : list nat) (st : state) : Prop := mkInv {
   inv_panic   : t_panic st = false;
   inv_rownum  : forall i tr, nth_error (t_rows st) i = Some tr -> r_num tr = S i;
   inv_cellnum : Forall (fun tr => body_numbered (r_body tr)) (t_rows st);
+  inv_here    : Forall (fun tr => r_here tr = true) (t_rows st);
   inv_handles : Forall (fun p => handle_numbered (snd p)) (t_handles st);
   inv_header  : match t_header st with Some cs => numbered cs /\ In (length cs) hs | None => True end
 }.
@@ -76,7 +77,7 @@ Proof. unfold sizes. rewrite map_app. reflexivity. Qed.
 
 Lemma rownum_snoc (rows : list (trow A)) b :
   (forall i tr, nth_error rows i = Some tr -> r_num tr = S i) ->
-  forall i tr, nth_error (rows ++ [mkTRow (S (length rows)) b]) i = Some tr -> r_num tr = S i.
+  forall i tr, nth_error (rows ++ [mkTRow (S (length rows)) true b]) i = Some tr -> r_num tr = S i.
 Proof.
   intros H i tr. destruct (Nat.lt_ge_cases i (length rows)) as [L|L].
   - rewrite nth_error_app1 by exact L. apply H.
@@ -97,6 +98,7 @@ Proof.
   - rewrite sizes_app, app_assoc, list_max_app. cbn [list_max row_size r_body body_size]. rewrite <- inv_ncols0. lia.
   - apply rownum_snoc. assumption.
   - apply Forall_app. split; [assumption|]. constructor; [exact Hc | constructor].
+  - apply Forall_app. split; [assumption|]. constructor; [reflexivity | constructor].
 Qed.
 
 Lemma inv_add_separator hs st : Inv hs st -> Inv hs (add_separator st).
@@ -106,6 +108,7 @@ Proof.
   - rewrite sizes_app, app_assoc, list_max_app. cbn [list_max row_size r_body body_size]. rewrite <- inv_ncols0. cbn [Nat.max]. rewrite Nat.max_0_r. reflexivity.
   - apply rownum_snoc. assumption.
   - apply Forall_app. split; [assumption|]. constructor; [exact I | constructor].
+  - apply Forall_app. split; [assumption|]. constructor; [reflexivity | constructor].
 Qed.
 
 Lemma Forall_upd {B} (P : B -> Prop) l i v : Forall P l -> P v -> Forall P (upd l i v).
@@ -118,6 +121,9 @@ Proof.
   intros H. unfold row_add_attached.
   destruct (nth_error (t_rows st) i) as [tr|] eqn:E; [|exact H].
   destruct (r_body tr) as [|cs] eqn:Eb; [exact H|].
+  assert (Hh : r_here tr = true).
+  { pose proof (inv_here _ _ H) as F. rewrite Forall_forall in F. exact (F tr (nth_error_In _ _ E)). }
+  cbv zeta. rewrite Hh.
   destruct H. rewrite resize_eq by (cbn; assumption).
   assert (Hn : numbered cs).
   { rewrite Forall_forall in inv_cellnum0. specialize (inv_cellnum0 tr (nth_error_In _ _ E)).
@@ -134,6 +140,7 @@ Proof.
       inversion Hj; subst. cbn [r_num]. apply inv_rownum0. exact E.
     + rewrite nth_error_upd_other in Hj by exact Ne. apply inv_rownum0. exact Hj.
   - apply Forall_upd; [assumption|]. cbn [r_body body_numbered]. apply numbered_add, Hn.
+  - apply Forall_upd; [assumption|]. reflexivity.
 Qed.
 
 Lemma inv_add_headers hs st xs : Inv hs st -> Inv (hs ++ [length xs]) (add_headers st xs).
@@ -163,9 +170,13 @@ Proof.
   exact (handle_numbered_assoc st r _ (inv_handles _ _ H) E).
 Qed.
 
-Lemma inv_step hs st o : Inv hs st -> Inv (hs ++ header_sizes [o]) (step st o).
+(* the op is not another table taking a row of this one *)
+Definition step_plain (st : state) (o : op A) : Prop :=
+  match o with OtherAddRow ref k => other_add_row st ref k = st | _ => True end.
+
+Lemma inv_step hs st o : Inv hs st -> step_plain st o -> Inv (hs ++ header_sizes [o]) (step st o).
 Proof.
-  intros H. destruct o; cbn [step header_sizes flat_map app]; try apply inv_weaken.
+  intros H P. destruct o; cbn [step header_sizes flat_map app]; try apply inv_weaken.
   - apply inv_bind_handle; [exact H | apply numbered_nil].
   - apply inv_bind_handle; [exact H | apply numbered_nil].
   - unfold append_new_row. apply inv_bind_handle; [|exact I]. apply inv_add_row_cells; [exact H | apply numbered_nil].
@@ -177,6 +188,7 @@ Proof.
   - apply inv_add_separator, H.
   - apply inv_add_headers, H.
   - exact H.
+  - cbn [step_plain] in P. rewrite P. exact H.
 Qed.
 
 Lemma inv_init : Inv [] (@init A).
@@ -190,12 +202,5 @@ Proof. unfold run. rewrite fold_left_app. reflexivity. Qed.
 
 Lemma header_sizes_app (h1 h2 : list (op A)) : header_sizes (h1 ++ h2) = header_sizes h1 ++ header_sizes h2.
 Proof. unfold header_sizes. apply flat_map_app. Qed.
-
-Theorem run_inv : forall h : list (op A), Inv (header_sizes h) (run h).
-Proof.
-  induction h as [|o h IH] using rev_ind.
-  - exact inv_init.
-  - rewrite run_snoc, header_sizes_app. apply inv_step, IH.
-Qed.
 
 End Inv.
